@@ -199,6 +199,28 @@ func genC19(o *Out, rng *rand.Rand, tier string) {
 		}
 		emitDec(b, "far-pointer")
 	}
+	// lists in which many names end in a pointer (a search list of one company's subdomains): 1 ... 300 pointers in one value
+	for _, k := range []int{1, 2, 5, 9, 10, 11, 12, 16, 17, 33, 64, 100, 128, 300} {
+		for variant := 0; variant < 3; variant++ {
+			base := []byte{7, 'e', 'x', 'a', 'm', 'p', 'l', 'e', 3, 'c', 'o', 'm', 0}
+			b := append([]byte(nil), base...)
+			prev := 0
+			for j := 0; j < k && len(b) < 16000; j++ {
+				at := len(b)
+				l := randLabel(rng, 4)
+				switch variant {
+				case 0: // label + pointer to the first name
+					b = append(append(append(b, byte(len(l))), l...), 0xc0, 0)
+				case 1: // label + pointer to the previous name (which ends in a pointer itself)
+					b = append(append(append(b, byte(len(l))), l...), 0xc0|byte(prev>>8), byte(prev))
+				default: // a bare pointer: the first name once more
+					b = append(b, 0xc0, 0)
+				}
+				prev = at
+			}
+			emitDec(b, "many-pointers")
+		}
+	}
 	// encode -> decode
 	for i := 0; i < n; i++ {
 		ns := randNames(rng)
